@@ -1,13 +1,16 @@
 """C13 -- object processors run once each, bottom-up, on a fully linked model.
 
 (M)    spec/LoaderProc.tla model-checked over every containment shape of the carrier grammar
-       with <= 3 (quick) / 4 (thorough) objects in 1-2 files x every processor table x every
-       replacement subset: C13_Order, C13_OwnFirst, C13_Once, C13_Replaced in every state, and
-       the canonical walk (the oracle of the next pass) is a behaviour of the machine;
-(S->I) every shape TLC enumerates (<= 4 / 5 objects) is rendered as model text, loaded by the
-       real textX with recording processors on the rules of seeded tables (with and without
-       user classes), and the recorded call sequence and final attribute contents are compared
-       with what TLC evaluates for that case;
+       with <= 3 (quick) / 4 (thorough) objects in 1-2 files x processor tables x replacement
+       subsets: C13_Order, C13_OwnFirst, C13_Once, C13_Replaced in every state, and the
+       canonical walk (the oracle of the next pass) is a behaviour of the machine;
+(S->I) quick: the scenarios of that very TLC run (shape x processor table x replacement
+       subset, seeded sample of 2400), thorough: every shape with <= 5 objects (seeded sample
+       of 6000) x seeded tables; plus seeded-random forests of <= 9 objects.  Each is rendered
+       as model text and loaded by the real textX with recording processors on the rules of
+       the table (alternately with user classes); the recorded call sequence and the final
+       attribute contents are compared with what TLC evaluates for that case.  A log that
+       differs from the canonical walk is handed to trace validation before it is judged;
 (I->S) bigger seeded-random forests (<= 14 objects, 1-3 files, postponed references): the
        recorded call log is validated as a trace of LoaderProc!Next by TLC (TraceLoaderProc).
 """
@@ -133,13 +136,16 @@ def _judge_batch(rep, batch):
 def run(rep):
     quick = rep.tier == "quick"
     rng = random.Random(rep.seed)
-    rep.rule = ("S->I: every containment shape TLC enumerates for the carrier grammar (objects of the rules Model, "
-                "Import, Pkg, Grp, Box, Cell, DefA, DefB, Use, UseList; attributes typed with the abstract rules "
-                "Elem and Def and with concrete rules; single and list attributes; 1-2 files) x seeded processor "
-                "tables/replacement subsets, alternately with user classes; call sequence and final containment "
-                "contents compared with TLC's evaluation of LoaderProc. I->S: seeded-random forests, call log "
-                "validated by TLC as a trace. Non-trivial: >= 3 objects and an object with two processor calls or "
-                "a replaced object (S->I), >= 6 calls (traces); distinct by content.")
+    rep.rule = ("S->I: containment shapes TLC enumerates for the carrier grammar (objects of the rules Model, Import, "
+                "Pkg, Grp, Box, Cell, DefA, DefB, Use, UseList; attributes typed with the abstract rules Elem and Def "
+                "and with concrete rules; single and list attributes; 1-2 files) x processor tables x replacement "
+                "subsets (quick: the scenario universe of the TLC run itself, <= 3 objects, seeded sample of 2400; "
+                "thorough: shapes of <= 5 objects, seeded sample of 6000, x 2 seeded tables), plus seeded-random "
+                "forests of <= 9 objects, alternately with user classes; call sequence and final containment contents "
+                "compared with TLC's evaluation of LoaderProc. I->S: seeded-random forests of <= 14 objects in 1-3 "
+                "files with postponed references, call log validated by TLC as a trace. Non-trivial: >= 3 objects "
+                "and an object with two processor calls or a replaced object (S->I), >= 6 calls (traces); distinct "
+                "by content.")
     rep.assumptions = [
         "carrier grammar of vt/drive/procs.py; its containment table is checked against the real metamodel on every load",
         "object identity is the containment path (file:attr.index/...), computed from parent links at call time",
@@ -164,12 +170,12 @@ def run(rep):
         r, shapes = D.emit_shapes(tlc, 5)
         rep.add_mc("MC_LoaderProc_Emit[shapes]", r, ["(scenario emission)"])
         total = len(shapes)
-        if len(shapes) > 9000:
-            shapes = rng.sample(shapes, 9000)
+        if len(shapes) > 6000:
+            shapes = rng.sample(shapes, 6000)
         rep.exhaustive = len(shapes) == total
-        plan = [(s, _tables(rng, s, 3)) for s in shapes]
+        plan = [(s, _tables(rng, s, 2)) for s in shapes]
         rep.bounds["scenarios"] = dict(enumerated_shapes=total, replayed_shapes=len(shapes), max_objs=5,
-                                       tables_per_shape=3)
+                                       tables_per_shape=2)
     # bigger seeded-random forests for the same comparison
     nrand = 300 if quick else 3000
     for _ in range(nrand):
@@ -257,8 +263,9 @@ META = dict(
                 "shape of that universe is rendered and loaded by the real textX and compared with TLC's "
                 "evaluation; call logs of bigger random loads are validated by TLC as traces of the machine."),
     level_note=("Fixed carrier grammar (abstract attribute types Elem and Def, recursion through Pkg, single and "
-                "list containment, references, 1-3 files); bounded shapes (<= 4/5 objects exhaustively, <= 14 "
-                "random); object identity by containment path; processor tables sampled per shape in S->I "
-                "(exhaustive in the TLC run for <= 3/4 objects)."),
+                "list containment, references, 1-3 files); bounded shapes (<= 3/4 objects in the TLC run, <= 5 "
+                "enumerated for replay in the thorough tier, <= 14 random); object identity by containment path; "
+                "processor tables exhaustive for <= 2/3 objects, otherwise every replacement subset with all rules "
+                "registered and every registration subset; seeded samples where the universe exceeds the budget."),
     technique="TLC model checking of LoaderProc.tla + TLC-enumerated scenario replay with TLC oracle + TLC trace validation",
 )
